@@ -216,8 +216,8 @@ func vConsScenario(mode int) vConsCfg {
 		c.faults, c.delay = 1, 1
 	}
 	if vTier() > 0 {
-		c.nBatches = 3
 		if mode == 0 {
+			c.nBatches = 3
 			c.faults = 3
 		} else {
 			c.delay = 2
@@ -227,6 +227,10 @@ func vConsScenario(mode int) vConsCfg {
 	c.chanBuf = vChoose("chanBuf", 2)
 	c.perFetch = 1 + vChoose("perFetch", 2)
 	c.slowReader = vChoose("slowReader", 2) == 1
+	if vTier() > 0 && mode == 1 {
+		// two scheduling delays are affordable only on a reduced configuration set
+		vAssume(c.start == 1 && c.perFetch == 1 && c.chanBuf == 0)
+	}
 	vClass(vSprintf("start=%d,chanBuf=%d,perFetch=%d,slow=%v", c.start, c.chanBuf, c.perFetch, c.slowReader))
 	return c
 }
